@@ -30,7 +30,7 @@ add(
 )
 add(
     "C02",
-    "model-based " + PBT + "a reference per-bucket list model; the same generated operation history runs on memory, sqlite and peewee and is compared after every step",
+    "model-based " + PBT + "a reference per-bucket list model; the same generated operation history runs on memory, sqlite and peewee and is compared after every step; plus exhaustive enumeration of every history up to length 3 (thorough: 4) over a 13-operation alphabet",
     "Histories of up to 40 operations over 1-2 buckets with frequent timestamp/end ties; each backend must equal the list model (ids learnt, not predicted) after every operation; replace_last must hit the event a limit-1 read returned. Bounded history length.",
     "Preconditions as in the property (live ids for replace/upsert etc.); tie-breaking among equally-new events is left to the backend.",
 )
@@ -48,7 +48,7 @@ add(
 )
 add(
     "C05",
-    "model-based " + PBT + "a dict model of bucket metadata + events under create/update/delete/lookup histories incl. stale handles and non-existent ids",
+    "model-based " + PBT + "a dict model of bucket metadata + events under create/update/delete/lookup histories incl. stale handles and non-existent ids; plus exhaustive enumeration of every history up to length 3 (thorough: 4) over an 11-operation alphabet on each backend",
     "After every step the listing equals the model (metadata as given, created as an instant, events as a multiset); error classes for non-existent ids are checked together with 'changes nothing'.",
     "No duplicate create; non-empty update values; omitted name not compared.",
 )
@@ -96,7 +96,7 @@ add(
 )
 add(
     "C16",
-    PBT + "grouping / run / permutation / partition oracles written directly from the property",
+    PBT + "grouping / run / permutation / partition oracles written directly from the property; plus exhaustive enumeration of all small event lists over a presence/value alphabet",
     "Event lists with missing keys, list-valued keys, equal values under different keys, duplicates; conservation of events and microseconds; inputs unmodified.",
     "Non-empty key lists; values without bools/floats; chunk maximality only on sorted gap-free input.",
 )
